@@ -475,3 +475,33 @@ func H_C07_more_parameters(s any) {
 	}
 	vpCover("reached")
 }
+
+// C08: "../" from a list entry goes to the node that holds the list
+//
+//vp:setup S_h2
+func H_C08_up_from_entry(s any) {
+	m := s.(*meta.Module)
+	st := newMemStore()
+	h2Store(st)
+	b := NewBrowser(m, st.node())
+	item, err := b.Root().Find("top/l=a")
+	vpAssert(err == nil && item != nil, "entry found")
+	type kase struct {
+		path, want string // want = rendered path, "" = must not resolve
+	}
+	cases := []kase{{"../other", "top/other"}, {"../l=b", "top/l=b"}, {"../a", "top/a"}, {"../l=b/v", "top/l=b/v"}, {"../../top/a", "top/a"}, {"../nosuch", ""}, {"../../../top", ""}}
+	c := cases[vpChoose(len(cases))]
+	var sel *Selection
+	p := vpCatch(func() { sel, err = item.Find(c.path) })
+	vpAssert(!p, "no panic")
+	if c.want == "" {
+		vpAssert(sel == nil || err != nil, item.Path.StringNoModule()+" + "+c.path+" names nothing")
+	} else {
+		vpAssertK("C08-up-from-entry", true, err == nil && sel != nil && sel.Path.StringNoModule() == c.want, "from top/l=a the path "+c.path+" leads to "+c.want)
+		if err == nil && sel != nil && meta.IsLeaf(sel.Meta()) {
+			v, gerr := sel.Get()
+			vpAssertK("C08-up-from-entry", true, gerr == nil && v != nil, "and the leaf found there can be read")
+		}
+	}
+	vpCover("reached")
+}
